@@ -9,6 +9,7 @@ junk payloads, all configurations), TypedDicts with renames and forbid_extra_key
 (with / without default, known / unknown / missing tag, forbid on / off)."""
 from __future__ import annotations
 
+import collections
 import dataclasses
 import enum
 import random
@@ -26,7 +27,9 @@ from common import Verdict
 from conv_checks import P_ALL, base_supported, describe_class
 from lane_conv import NODEFAULT, World
 
-MUTABLE = (list, dict, set, bytearray)
+MUTABLE = (list, dict, set, bytearray, collections.deque)
+SEQ_MUT = (list, collections.deque)
+MAP_MUT = (dict, collections.Counter, collections.defaultdict)
 
 
 def is_instance_obj(o):
@@ -38,12 +41,12 @@ def snapshot(o, depth=0):
     if depth > 40:
         return ("deep",)
     t = type(o)
-    if t in (list, tuple):
-        return (t.__name__, id(o) if t is list else None, tuple(snapshot(x, depth + 1) for x in o))
+    if t in (list, tuple, collections.deque):
+        return (t.__name__, id(o) if t is not tuple else None, tuple(snapshot(x, depth + 1) for x in o))
     if t in (set, frozenset):
         return (t.__name__, id(o) if t is set else None, frozenset((repr(x), id(x) if isinstance(x, MUTABLE) else None) for x in o))
-    if t is dict:
-        return ("dict", id(o), tuple((snapshot(k, depth + 1), snapshot(v, depth + 1)) for k, v in o.items()))
+    if t in MAP_MUT:
+        return (t.__name__, id(o), tuple((snapshot(k, depth + 1), snapshot(v, depth + 1)) for k, v in o.items()))
     if is_instance_obj(o):
         names = [a.name for a in attrs.fields(t)] if attrs.has(t) else [f.name for f in dataclasses.fields(o)]
         return ("inst", t.__name__, id(o), tuple((n, snapshot(getattr(o, n, NODEFAULT), depth + 1)) for n in names))
@@ -56,14 +59,14 @@ def mutable_ids(o, acc=None, depth=0):
     if depth > 40:
         return acc
     t = type(o)
-    if t in (list, set, dict):
+    if t in (list, set, dict, collections.deque, collections.Counter, collections.defaultdict):
         if id(o) in acc:
             return acc
         acc[id(o)] = o
-    if t in (list, tuple, set, frozenset):
+    if t in (list, tuple, set, frozenset, collections.deque):
         for x in o:
             mutable_ids(x, acc, depth + 1)
-    elif t is dict:
+    elif t in MAP_MUT:
         for k, v in o.items():
             mutable_ids(k, acc, depth + 1)
             mutable_ids(v, acc, depth + 1)
@@ -87,7 +90,7 @@ def any_positions(w: World, t, o, acc, strat="dict", depth=0):
     k = t[0]
     if k == "any":
         mutable_ids(o, acc)
-    elif k in ("list", "tuphom", "set", "fset"):
+    elif k in ("list", "tuphom", "set", "fset", "deque"):
         if t[1][0] == "any":
             pass                   # list(obj) / set(obj): the elements are kept as they are
         try:
@@ -101,7 +104,7 @@ def any_positions(w: World, t, o, acc, strat="dict", depth=0):
                 any_positions(w, tt, e, acc, strat, depth + 1)
         except TypeError:
             pass
-    elif k == "dict" and type(o) is dict:
+    elif k in ("dict", "defaultdict") and type(o) is dict:
         for kk, e in o.items():
             any_positions(w, t[1], kk, acc, strat, depth + 1)
             any_positions(w, t[2], e, acc, strat, depth + 1)
@@ -211,13 +214,13 @@ def td_positions(w: World, t, x, acc, depth=0):
                     td_positions(w, f.type, getattr(x, f.name), acc, depth + 1)
                 elif f.type is None and hasattr(x, f.name):
                     td_any(w, getattr(x, f.name), acc, depth + 1)
-    elif k in ("list", "tuphom", "set", "fset"):
+    elif k in ("list", "tuphom", "set", "fset", "deque"):
         for e in x:
             td_positions(w, t[1], e, acc, depth + 1)
     elif k == "tuple":
         for tt, e in zip(t[1], x):
             td_positions(w, tt, e, acc, depth + 1)
-    elif k == "dict":
+    elif k in ("dict", "defaultdict"):
         for kk, e in x.items():
             td_positions(w, t[2], e, acc, depth + 1)
     elif k in ("opt", "annot"):
@@ -283,7 +286,7 @@ def check_c11(v: Verdict, n_worlds: int):
     rng = random.Random(v.seed * 7919 + 1111)
     hist = {"worlds": 0, "calls": 0, "returned": 0, "raised": 0, "shared": 0, "structure": 0, "unstructure": 0, "typeddict_types": 0,
             "tagged_union_calls": 0, "typeddict_override_calls": 0, "payload_kinds": {"valid": 0, "mutated": 0, "junk": 0}}
-    profile = dict(P_ALL, typeddicts=0.25, any_structured=True)
+    profile = dict(P_ALL, typeddicts=0.25, any_structured=True, ext_types=True)   # Counter / defaultdict / deque, both spellings
     for wi in range(n_worlds):
         w = L.gen_world(rng, profile)
         hist["worlds"] += 1
